@@ -114,6 +114,27 @@ def evaluate(cs, rep, tier):
         for (c, v), r in zip(vs, vr):
             if r != br[c.key()]:
                 counter.append({"input": v.impl_line()[:700], "expected": "packets equal to Encoder::new's: " + br[c.key()][:100], "observed": r[:100], "profile": p, "oracle": "plan origin / cache independence"})
+    # multi-block objects: Encoder::new (one plan shared between blocks) vs independently constructed block encoders,
+    # with long and short blocks on both sides of a Table-2 row (KL = K' + 1 > KS = K') and inside one row
+    ro = C.Rng(C.get_seed()).fork("C07obj")
+    from props import C06 as _C06
+    kps = [k for k in _C06.kprimes() if k <= (60 if tier == "quick" else 300)]
+    oc = []
+    for i in range(14 if tier == "quick" else 80):
+        z = ro.range(2, 5)
+        ks = ro.choice(kps) if i % 2 == 0 else ro.range(2, 40)
+        zl = ro.range(1, z - 1)
+        kt = zl * (ks + 1) + (z - zl) * ks
+        t = ro.choice([1, 2, 4])
+        f = kt * t - ro.below(t)
+        oc.append(C.Case("enc_packets", [f, t, z, 1, 1, 2] + CG.rand_data(ro, f)))
+    for p in PROFILES:
+        r1 = C.run_impl(oc, p)
+        r2 = C.run_impl([C.Case("enc_packets_per_block", c.args) for c in oc], p)
+        for c, x, y in zip(oc, r1, r2):
+            if x != y or not x.startswith("1"):
+                counter.append({"input": c.impl_line()[:500], "expected": "Encoder::new produces the packets of independently built block encoders: " + y[:80], "observed": x[:80], "profile": p, "oracle": "plan sharing between blocks"})
+                break
     # larger blocks whose dense tail starts at a word boundary: sparse vs dense back-end, release build only
     # (the debug profile's solver self-checks make K > 1000 take minutes; the model is not needed for this equality)
     big = tail_boundary_sizes(2000 if tier == "quick" else 7000)
@@ -134,6 +155,19 @@ def evaluate(cs, rep, tier):
         if len(set(r for _, r in lst)) > 1 or any(r.startswith("0") or r.startswith("CRASH") for _, r in lst):
             c, r = next(((c, r) for c, r in lst if r != lst[0][1] or r.startswith("0") or r.startswith("CRASH")), lst[-1])
             counter.append({"input": c.impl_line()[:300] + " ...", "expected": f"identical result on the sparse and the dense back-end for K' = {kp}: " + lst[0][1][:60], "observed": r[:80], "oracle": "back-end independence at dense-tail word boundaries"})
+    # no_std build at block sizes where the packed U rows span several 64-bit words (the portable tail of the binary
+    # fused kernel is only reachable in no_std builds on this host): packets and decode vs the std build, release
+    nb = []
+    for kp in sorted(set([1002, 1281] + big[-2:] if tier == "quick" else [1002, 1281, 1530, 2005, 3015] + big)):
+        data = CG.rand_data(rb, kp)
+        esis = [e for e in range(kp) if e % 17 != 3] + list(range(kp, kp + kp // 17 + 3))
+        nb.append(C.Case("enc_packets", [kp, 1, 1, 1, 1, 5] + data))
+        nb.append(CG.sbd_case(rb, kp, 1, 1, 1, 0, [esis], data))
+    rs = C.run_impl_crashsafe(nb, "release", chunk=1, timeout=900)
+    rn = C.run_impl_nostd(nb, "release")
+    for c, a, b in zip(nb, rs, rn):
+        if C.canon(a) != C.canon(b) or not a.startswith("1"):
+            counter.append({"input": c.impl_line()[:300] + " ...", "expected": "identical result in the std and the no_std build: " + a[:80], "observed": "no_std/release: " + b[:80], "oracle": "cross-build equality (large blocks)"})
     # every CPU-dependent kernel path computes the same bytes (the property's kernel axis; proofs in C11)
     from props import C11 as K
     kc = [c for c in K.cases(C.Rng(C.get_seed()).fork("C07kern"), "quick") if c.fn in ("k_add", "k_mul", "k_fma") and (c.args[2] if c.fn == "k_add" else c.args[3]) % 7 in (0, 3)]
@@ -149,7 +183,7 @@ def evaluate(cs, rep, tier):
     nt = sum(1 for c in cs if c.fn in ("codec_hist", "sbd_hist"))
     return {"disagreements": dis, "counterexamples": counter,
             "stats": {"evaluations": len(cs) * 6 + len(dec) * 8 + len(vs) * 2, "distinct_nontrivial": nt,
-                      "tail_boundary_block_sizes": big, "kernel_path_cases": len(kc),
+                      "tail_boundary_block_sizes": big, "nostd_large_block_cases": len(nb), "shared_plan_objects": len(oc), "kernel_path_cases": len(kc),
                       "builds_compared": [f"{a}/{b}" for a, b in results], "thresholds": ["default 250", "sparse (0)", "dense (99999)"],
                       "encoder_variants": ["new (warm cache)", "with_encoding_plan(generate)", "direct sparse", "direct dense", "new (cold cache)"],
                       "samples": [cs[0].impl_line()[:200] + " ... -> " + base[0][:60]],
